@@ -2,7 +2,8 @@
 (* C18 / C20: the BaseTransport contract as the I/O manager relies on it.                                     *)
 (*   connect / close (idempotent) / bulk_read(n, timeout) / bulk_write                                       *)
 (* Peer bytes are named 1, 2, 3, ... in the order written.  A read returns a non-empty prefix of the          *)
-(* undelivered bytes, at most n of them; it may time out only when nothing is undelivered.                    *)
+(* undelivered bytes, at most n of them; it may time out only when nothing is undelivered.  A read whose      *)
+(* timeout is 0 is a poll: the same contract (what has arrived is returned at once).                          *)
 EXTENDS Naturals, Sequences, TLC, Json
 CONSTANTS MaxWrite, MaxReq, MaxBytes
 VARIABLES connected, written, delivered, act
@@ -12,10 +13,10 @@ Undelivered == written - delivered
 Connect == /\ ~connected /\ connected' = TRUE /\ written' = 0 /\ delivered' = 0 /\ act' = [op |-> "connect"]
 Close == /\ connected' = FALSE /\ act' = [op |-> "close"] /\ UNCHANGED <<written, delivered>>
 PeerWrite(m) == /\ connected /\ written + m <= MaxBytes /\ written' = written + m /\ act' = [op |-> "pw", m |-> m] /\ UNCHANGED <<connected, delivered>>
-ReadOk(n, k) == /\ connected /\ Undelivered > 0 /\ k >= 1 /\ k <= n /\ k <= Undelivered
-                /\ delivered' = delivered + k /\ act' = [op |-> "read", n |-> n, k |-> k, first |-> delivered + 1] /\ UNCHANGED <<connected, written>>
-ReadTimeout(n) == /\ connected /\ Undelivered = 0 /\ act' = [op |-> "timeout", n |-> n] /\ UNCHANGED <<connected, written, delivered>>
-Next == Connect \/ Close \/ (\E m \in 1..MaxWrite : PeerWrite(m)) \/ (\E n \in 1..MaxReq : ReadTimeout(n) \/ \E k \in 1..n : ReadOk(n, k))
+ReadOk(n, k, z) == /\ connected /\ Undelivered > 0 /\ k >= 1 /\ k <= n /\ k <= Undelivered
+                   /\ delivered' = delivered + k /\ act' = [op |-> "read", n |-> n, k |-> k, first |-> delivered + 1, poll |-> z] /\ UNCHANGED <<connected, written>>
+ReadTimeout(n, z) == /\ connected /\ Undelivered = 0 /\ act' = [op |-> "timeout", n |-> n, poll |-> z] /\ UNCHANGED <<connected, written, delivered>>
+Next == Connect \/ Close \/ (\E m \in 1..MaxWrite : PeerWrite(m)) \/ (\E n \in 1..MaxReq, z \in BOOLEAN : ReadTimeout(n, z) \/ \E k \in 1..n : ReadOk(n, k, z))
 Spec == Init /\ [][Next]_vars
 InOrderNoLossNoDup == delivered <= written
 ReadAtMost == act.op = "read" => act.k <= act.n
